@@ -30,14 +30,20 @@ def main():
     sh("git -C %s checkout -q --detach %s && git -C %s checkout -q -- . && git -C %s clean -fdq" % (WT, head, WT, WT))
     claims = json.load(open(os.path.join(V, "tools", "claims.json")))
     props = sorted(p for p, c in claims.items() if c.get("claimed"))
+    if os.environ.get("VFMUT_PROPS"):          # ad-hoc runs: only these properties (results are not recorded)
+        props = os.environ["VFMUT_PROPS"].split(",")
     if KIND == "refactors":
         patches = sorted(glob.glob(os.path.join(V, "selftest", "refactors", "*.patch")))
     else:
         patches = sorted(glob.glob(os.path.join(V, "selftest", "mutants", "*.patch"))) + \
             sorted(glob.glob(os.path.join(V, "seeded", "*", "patch.diff")))
+    if os.environ.get("VFMUT_PATCHES"):        # ad-hoc: explicit patch files
+        patches = os.environ["VFMUT_PATCHES"].split(",")
     env = dict(os.environ, VF_REPO=WT, VF_CACHE=CACHE, VF_EVIDENCE_DIR=EVD)
     results = {}
     respath = os.path.join(V, "selftest", "results.json" if KIND != "refactors" else "results_refactors.json")
+    if os.environ.get("VFMUT_PROPS") or os.environ.get("VFMUT_PATCHES"):
+        respath = os.path.join(BASE, "adhoc_results.json")
     if os.path.exists(respath):
         results = json.load(open(respath))
     for p in [None] + patches:
